@@ -644,3 +644,60 @@ func init() {
 		},
 	})
 }
+
+func init() {
+	register(&Rule{
+		ID: "metriclog.complete-lines-only", Props: []string{"C17"}, Floor: 1,
+		Doc: "the metric log reader parses a line only when its terminator was read: lines are obtained with bufio.Reader.ReadString / ReadBytes / ReadSlice('\\n') and handed on only when that call reported no error. bufio.Reader.ReadLine and bufio.Scanner deliver the unterminated tail of a file cut mid-write as an ordinary line, which then parses as an item that was never written (shorter numbers, missing trailing columns)",
+		Run: func(c *Ctx) {
+			n := 0
+			for _, f := range c.P.ModuleFuncs() {
+				if f.Pkg == nil || !strings.HasSuffix(f.Pkg.Pkg.Path(), mlPkg) || isTestOrExample(f) {
+					continue
+				}
+				for _, ci := range callsIn(f) {
+					switch {
+					case isExtCall(ci, "bufio.(Reader).ReadLine", "bufio.(Scanner).Scan", "bufio.(Scanner).Text", "bufio.(Scanner).Bytes"):
+						n++
+						c.Violate(fmt.Sprintf("%s / line-source#%d", fnKey(f), n), ci.Pos(), "%s cannot tell a terminated line from the cut tail of the file", calleeDesc(ci))
+					case isExtCall(ci, "bufio.(Reader).ReadString", "bufio.(Reader).ReadBytes", "bufio.(Reader).ReadSlice"):
+						n++
+						// the data result may flow on only under err == nil
+						ok := true
+						var data, errv ssa.Value
+						if v := ci.Value(); v != nil {
+							for _, r := range refsOf(v) {
+								if ex, isEx := r.(*ssa.Extract); isEx {
+									if ex.Index == 0 {
+										data = ex
+									} else {
+										errv = ex
+									}
+								}
+							}
+						}
+						if data != nil {
+							for _, r := range refsOf(data) {
+								guarded := false
+								for _, ft := range condFacts(r.Block()) {
+									if b, isB := ft.Cond.(*ssa.BinOp); isB && (b.X == errv || b.Y == errv) && (isNilConst(b.X) || isNilConst(b.Y)) {
+										if (b.Op == token.EQL && ft.Truth) || (b.Op == token.NEQ && !ft.Truth) {
+											guarded = true
+										}
+									}
+								}
+								if !guarded {
+									ok = false
+								}
+							}
+						}
+						c.Check(ok && errv != nil, fmt.Sprintf("%s / line-source#%d", fnKey(f), n), ci.Pos(), "the text read up to the terminator is used only when the read reported no error (an error means the terminator is missing)")
+					}
+				}
+			}
+			if n == 0 {
+				c.Violate(mlPkg+" / line-source", token.NoPos, "the reader no longer reads lines through bufio")
+			}
+		},
+	})
+}
